@@ -672,4 +672,41 @@ func (g *generator) all(run func(*c07Case)) {
 			run(c)
 		}
 	}
+	// F15 (GoLite round): the demanded metadata value is a NEAR MISS of the signed one — empty,
+	// a proper suffix / prefix of it, it plus a character, another case; or something demanded
+	// where the empty value was signed. verifyUserMetadata compares whole values (submap).
+	// Appended last so that the cases above keep their ids and random draws.
+	for i := 0; i < n(1, 6); i++ {
+		for _, kind := range []string{"oci", "blob"} {
+			for _, near := range []string{"empty", "suffix", "prefix", "longer", "longer-front", "case", "for-empty", "exact"} {
+				c := g.base("vmeta-near-"+near, pickKey(), Pick(g.rng, formats), kind, Pick(g.rng, signerKinds))
+				signed := "Release-" + fmt.Sprint(10+g.rng.Intn(90))
+				c.Meta = map[string]string{"k": signed, "e": ""}
+				if c.OCI != nil {
+					delete(c.OCI.Anns, "k")
+					delete(c.OCI.Anns, "e")
+					c.VOCI = cloneDesc(c.OCI)
+				}
+				switch near {
+				case "empty":
+					c.VMeta = map[string]string{"k": ""}
+				case "suffix":
+					c.VMeta = map[string]string{"k": signed[1+g.rng.Intn(len(signed)-1):]}
+				case "prefix":
+					c.VMeta = map[string]string{"k": signed[:1+g.rng.Intn(len(signed)-1)]}
+				case "longer":
+					c.VMeta = map[string]string{"k": signed + "0"}
+				case "longer-front":
+					c.VMeta = map[string]string{"k": "x" + signed}
+				case "case":
+					c.VMeta = map[string]string{"k": "r" + signed[1:]}
+				case "for-empty":
+					c.VMeta = map[string]string{"e": "x", "k": signed}
+				case "exact":
+					c.VMeta = map[string]string{"e": "", "k": signed}
+				}
+				run(c)
+			}
+		}
+	}
 }
